@@ -228,6 +228,9 @@ class Tokenizer:
                                 # for one)
                                 value = self.cleanstring('', value)
                             value = self.unicodesub(_repl, value)
+                            if 'COMMENT' == name and '*/' in value[2:-2]:
+                                # an escape does not end the comment
+                                value = found
 
                         else:
                             if 'ATKEYWORD' == name:
